@@ -38,6 +38,9 @@ func init() {
 			{ID: "C03.g", Title: "ERROR-DISCIPLINE", Template: "T12", MinInst: 15,
 				Rule: "every Backend/LockBackend/applyStagedUploads/errgroup.Wait/cachePut call in ctlog has its error bound and tested, or returned directly; documented exceptions listed",
 				Run:  c03g},
+			{ID: "C03.k", Title: "STAGING-PATH", Template: "T6", MinInst: 1,
+				Rule: "stagingPath names the tree by its size and its complete root hash under staging/: writer (signed tree) and reader (lock checkpoint) derive the same key, and no two trees share one",
+				Run:  hStagingPath},
 			{ID: "C03.i", Title: "IDEMPOTENT-REUPLOAD", Template: "T10", MinInst: 1,
 				Rule: "re-applying a staged bundle over tiles that already exist must succeed on the local backend: the comparison of an existing immutable object with equal bytes terminates for every length and does not treat the final short chunk as a difference (as C13.i)",
 				Run:  c13i},
